@@ -8,6 +8,7 @@ import Pysmi.Model.Reader
 import Pysmi.Model.Oid
 import Pysmi.Model.Symtab
 import Pysmi.Model.Syntax
+import Pysmi.Model.Struct
 /-!
 Line-protocol driver: one JSON object per input line, one JSON value per output line.
 Imports only the import-free model files and `Lean.Data.Json`.
@@ -484,6 +485,53 @@ def opDefval (j : Json) : Except String Json := do
   return jEmitted (genDefVal (← b "isInt") (← b "isOid") (← b "isBits") enumOf (fun n => known.contains n) dv)
 end Sx
 
+/-! ### op: struct (references, indices, compliance groups, node types of one module) -/
+namespace St
+open Pysmi.Struct
+
+def nats (j : Json) : Except String (List Nat) := getList (fun x => x.getNat?) j
+
+def syn (j : Json) : Except String Syn :=
+  match j with
+  | .arr #[.str "seqof", r] => do return .seqOf (← r.getNat?)
+  | .arr #[.str "named", t] => do return .named (← t.getNat?)
+  | .str "bits" => pure .bits
+  | _ => pure .other
+
+def jRef (r : Ref) : Json := .arr #[r.module, r.object]
+
+def opStruct (j : Json) : Except String Json := do
+  let imports ← getList (fun r => do
+    match (← r.getArr?).toList with
+    | [m, syms] => return (← m.getNat?, ← nats syms)
+    | _ => throw "bad import row") (← j.getObjVal? "imports")
+  let self ← (← j.getObjVal? "self").getNat?
+  let rows ← nats (← j.getObjVal? "rows")
+  let cols ← nats (← j.getObjVal? "cols")
+  let lists ← getList nats (← j.getObjVal? "lists")
+  let indices ← getList (getList (fun p => do
+    match (← p.getArr?).toList with
+    | [i, n] => return (← i.getBool?, ← n.getNat?)
+    | _ => throw "bad index item")) (← j.getObjVal? "indices")
+  let compl ← getList (getList (fun p => do
+    match (← p.getArr?).toList with
+    | [.null, gs] => return (none, ← nats gs)
+    | [m, gs] => return (some (← m.getNat?), ← nats gs)
+    | _ => throw "bad compliance module")) (← j.getObjVal? "compliances")
+  let nodes ← getList (fun p => do
+    match (← p.getArr?).toList with
+    | [n, s] => return (← n.getNat?, ← syn s)
+    | _ => throw "bad node") (← j.getObjVal? "nodes")
+  let nt : NodeType → String := fun t => match t with
+    | .table => "table" | .row => "row" | .column => "column" | .scalar => "scalar"
+  return Json.mkObj [
+    ("lists", .arr (lists.map (fun l => Json.arr ((genObjects imports self l).map jRef).toArray)).toArray),
+    ("indices", .arr (indices.map (fun l => Json.arr ((genTableIndex imports self l).map
+        (fun r => Json.arr #[r.module, r.object, r.implied])).toArray)).toArray),
+    ("compliances", .arr (compl.map (fun l => Json.arr ((genCompliances self l).map jRef).toArray)).toArray),
+    ("nodes", .arr (nodes.map (fun p => Json.str (nt (nodeType rows cols p.1 p.2)))).toArray)]
+end St
+
 def handle (j : Json) : Except String Json := do
   let op ← (← j.getObjVal? "op").getStr?
   match op with
@@ -500,6 +548,7 @@ def handle (j : Json) : Except String Json := do
   | "ranges" => Sx.opRanges j
   | "basetype" => Sx.opBasetype j
   | "defval" => Sx.opDefval j
+  | "struct" => St.opStruct j
   | "put2" => Wr.opPut2 j
   | _ => throw s!"unknown op {op}"
 
